@@ -762,7 +762,11 @@ def run_nest(ctx, model, quick, rng, H, fxs, deep, fam):
         iv = H.impl_verdict(r)
         if iv != mv:
             ctx.corr_break("buffmt:check_tree", inp, iv + " " + str(r.get("m", ""))[:140], mv)
-        klass = "nonfirst_substruct_begins_with_struct" if d.finding else \
+        # nonfirst_substruct_begins_with_struct only exists for the code without the repaired descent (deep == "0");
+        # once repaired, such dtypes get as far as any other and can only show the independent, already registered
+        # closing-brace defect (a native-mode T{} record closing at an offset that is not a multiple of the alignment
+        # of its first member: numpy writes the trailing padding as explicit x AFTER the brace, the checker pads first)
+        klass = "nonfirst_substruct_begins_with_struct" if (d.finding and deep == "0") else \
             ("nested_record_trailing_pad_first_member" if native_brace_pad(c["fmtb"]) else None)
         if iv not in ("Accept", "Reject"):
             ctx.fail("unsafe_outcome", inp, iv + " " + str(r.get("m", ""))[:160], "returns or raises ValueError/TypeError")
